@@ -57,10 +57,11 @@ def build():
     # bounded stand-ins on the real code that run with the quick tier (labelled bounded in the evidence, never counted as discharged)
     for pid, what in {
         "C01": "grid sweeps on the real code (replay/C01.py: 384 configurations: 1-3 arguments, sequential / thread pool / process pool / apply_async conventions, "
-               "shuffle seeds, flat and split results, completion in adversarial order): every combination called exactly once with exactly its kwargs, each result in its slot",
-        "C07": "sowing on the real code (replay/C07.py: N up to 48, every batchsize / num_batches request, grids and case lists): batch files partition the settings stream, "
-               "sizes as stated, reload of the crop reports the same numbers",
-        "C09": "partial reaps on the real code (replay/C09.py: N = 2..7, every batching, subsets of finished batches, number / bool / str / tuple results, shuffle): finished "
+               "shuffle seeds, flat and split results, completion in adversarial order; consecutive sweeps in one process over values that are equal but of different type): "
+               "every combination called exactly once with exactly its kwargs, each result in its slot",
+        "C07": "sowing on the real code (replay/C07.py: N up to 48, every batchsize / num_batches request, grids and case lists; a Runner crop with constants given when sowing - also falsy "
+               "ones - over the runner's constants over its resources): batch files partition the settings stream, sizes as stated, reload of the crop reports the same numbers",
+        "C09": "partial reaps on the real code (replay/C09.py: N = 2..7, every batching, subsets of finished batches, number / bool / str / tuple results, shuffle; partial reap to a DataFrame of a two-output function): finished "
                "values exact, placeholders elsewhere, crop kept, growing continues to the exact full result",
         "C12": "reaps with injected failures on the real code (replay/C12.py: raw, Runner and Harvester crops; failures in the result files, the dataset construction and the "
                "harvester merge; clean_up / allow_incomplete combinations): the crop survives every failed reap and is deleted only as requested",
